@@ -25,6 +25,9 @@ def days_of(y):
 
 
 def drive(ctx):
+    from .. import gr
+
+    gr.replay(ctx)          # behaviours of the Session state machine: queries on values with a history
     q = ctx.quick()
     rnd = ctx.rnd
     n = 0
